@@ -43,6 +43,7 @@ def configs(tier, seed):
            dict(name="synergy strict", h="synergy", n=n, strict=True),
            dict(name="calculate_mse", h="cmse", E=3, T=2),
            dict(name="similarity 2x3", h="corr", samples=2, M=3),
+           dict(name="similarity 2x3, sample mapping of a larger space", h="corr", samples=2, M=3, inherited=True),
            dict(name="similarity 3x3", h="corr", samples=3, M=3 if q else 4)]
     return out
 
@@ -318,21 +319,30 @@ def h_corr(ctx, cfg):
     rows = list(itertools.combinations(range(M), 2))[:max(nS, 2)]
     while len(rows) < nS:
         rows.append(rows[0])
+    kw = {}
+    if cfg.get("inherited"):
+        # the screen is part of a larger space: its sample mapping also lists a sample without rows ("s0x", id 1)
+        kw["sample_mapping"] = (np.array(sorted(snames + ["s0x"]), dtype=str), np.array(list(range(nS + 1)), dtype=int))
     screen = data.Screen(
         treatment_names=np.array([[names[a], names[b]] for a, b in rows], dtype=str),
         treatment_doses=np.array([[doses[a], doses[b]] for a, b in rows], dtype=float),
         sample_names=np.array([snames[i % nS] for i in range(len(rows))], dtype=str),
         plate_names=np.array(["p"] * len(rows), dtype=str),
-        control_treatment_name="ctl")
+        control_treatment_name="ctl", **kw)
     mi = screen.treatment_mapping[2].tolist()
     K = len(mi) * (len(mi) - 1) // 2
-    table = {sid: [ctx.real("q%d_%d" % (sid, k)) for k in range(K)] for sid in range(nS)}
+    present = sorted(set(int(x) for x in screen.sample_ids.tolist()))
+    all_ids = sorted(int(x) for x in screen.sample_mapping[1].tolist())
+    # (a sample without rows still gets a table, so that asking for it is answered - and noticed - rather than a KeyError)
+    table = {sid: [ctx.real("q%d_%d" % (i, k)) for k in range(K)] for i, sid in enumerate(present)}
+    for sid in all_ids:
+        table.setdefault(sid, [0.5 + 0.01 * k for k in range(K)])
     log = []
     holder = core.ThetaHolder(n_thetas=1)
     holder.add_theta(_RecTheta(np, table, log))
     # non-constant prediction rows (otherwise 0/0)
-    mu = [_mean([table[s][k] for s in range(nS)]) for k in range(K)]
-    X = [[table[s][k] - mu[k] for k in range(K)] for s in range(nS)]
+    mu = [_mean([table[sid][k] for sid in present]) for k in range(K)]
+    X = [[table[sid][k] - mu[k] for k in range(K)] for sid in present]
     for s in range(nS):
         ss = 0.0
         for k in range(K):
@@ -341,6 +351,10 @@ def h_corr(ctx, cfg):
     df = mm.correlation_matrix(screen, holder)
     corr = df.values.tolist()
     ctx.observe("corr", corr)
+    ctx.prove(len(corr) == nS and all(len(r) == nS for r in corr), "one row and one column per sample that has experiments in the screen",
+              key="similarity matrix has rows for samples without experiments")
+    if len(corr) != nS:
+        return len(corr)
     sids = sorted(set(screen.sample_ids.tolist()))
     ctx.prove(len(log) == len(sids), "one prediction request per sample")
     want = sorted(tuple(c) for c in itertools.combinations(mi, 2))
